@@ -3,17 +3,26 @@ import collections
 import random
 import subprocess
 
-from vlib import core, gen_sig
+from vlib import core, gen_sig, gen_sig2
 
 SPEC = "trace/SigTrace.tla"
 WRAPS = ["ep_map_sswum"]
 VER_OPS = ("ecdsa_ver", "ecss_ver", "rsa_ver", "bls_ver", "bbs_ver", "zss_ver")
+# second conformance part: the schemes driven by harness/drv_sig2.c and judged by tla/model/Sig2Spec.tla
+SPEC2 = "trace/Sig2Trace.tla"
+WRAPS2 = ["ep_map_sswum", "bn_rand_mod"]
+VER_OPS2 = ("pokdl_ver", "pokor_ver", "sokdl_ver", "sokor_ver", "vbnn_ver", "ers_ver", "smlers_ver", "etrs_ver",
+            "cls_ver", "cli_ver", "clb_ver", "pss_ver", "psb_ver", "mpss_ver", "mpsb_ver", "mklhs_ver", "cmlhs_ver")
 
 
 def nontrivial(e):
     # non-trivial: a verification verdict on an honest or mutated triple (key generation / signing events
     # and skipped constructions do not count)
     return e.get("op") in VER_OPS
+
+
+def nontrivial2(e):
+    return e.get("op") in VER_OPS2
 
 
 def curve_ids(cfg):
@@ -70,7 +79,7 @@ EXPECTED = [
 
 
 def _count(ev, label, events):
-    c = collections.Counter((e.get("op"), e.get("ret")) for e in events if e.get("op") in VER_OPS)
+    c = collections.Counter((e.get("op"), e.get("ret")) for e in events if e.get("op") in VER_OPS + VER_OPS2)
     ev.cov.setdefault("verdicts", {})[label] = {"%s:%s" % k: v for k, v in sorted(c.items())}
 
 
@@ -92,9 +101,21 @@ def run(tier, seed):
                                         "RSA-PSS sLen=0 (RFC 8017 8.1.2/9.1.2)", "RSA PKCS#1 v1.5 (RFC 8017 8.2.2/9.2; thorough)",
                                         "RSA basic padding (re-encoding; thorough)", "BLS (ghost logarithm, G2 arithmetic over F_p^2 in the spec)",
                                         "Boneh-Boyen short signatures (cp_bbs, ghost logarithm)", "ZSS (cp_zss, ghost logarithm)"],
+        "with_definitional_predicate_part2": [
+            "PoK / SoK of a discrete logarithm and of one of two (cp_pokdl, cp_pokor, cp_sokdl, cp_sokor: Camenisch-Stadler, evaluated directly)",
+            "vBNN-IBS (cp_vbnn, evaluated directly)",
+            "extendable ring signatures (cp_ers; cp_smlers with the hash-to-curve point bound from the execution; cp_etrs with the "
+            "interpolation in the exponent: ACCEPT only if at least t signed, ACCEPT if exactly t signed)",
+            "Camenisch-Lysyanskaya A, B, C (cp_cls, cp_cli, cp_clb: ghost logarithms of the G2 keys)",
+            "Pointcheval-Sanders single / block (cp_pss, cp_psb) and the two-party versions (cp_mpss, cp_mpsb: the output element of G_T "
+            "is the unity iff the definition holds for the combined shares)",
+            "multi-key homomorphic signatures (cp_mklhs: ghost logarithms of the keys, hash-to-curve points bound from the execution)",
+            "context-hiding multi-key homomorphic signatures with BLS tags (cp_cmlhs: ghost logarithms of z_i, y_i, pk_i and of the "
+            "combined S captured from the signer's random scalars; the G_T key elements are bound to their ghost exponents)"],
         "completeness_only": [],
-        "not_covered": ["CL", "PS/mPS", "vBNN-IBS", "PoK/SoK", "ring signatures (ERS/SMLERS/ETRS)",
-                        "homomorphic signatures (CMLHS/MKLHS)"]}
+        "mutation_reject_only": [],
+        "not_covered": ["cp_cmlhs with ECDSA tags (needs G2 = G1, not available on the pinned 256-bit pairing curve)",
+                        "cp_cmlhs_onv / cp_mklhs_onv / *_off (offline-online variants of the two homomorphic verifiers)"]}
     ev.assumptions = ["pre-hashed RSA mode: the definition admits digests of exactly RLC_MD_LEN bytes (other lengths must be refused)",
                       "hash-to-curve output of cp_bls_ver is bound from the execution (input must equal the message); its correctness is C13",
                       "MD_MAP = SHA-256 (pinned); EC_CUR = PRIME",
@@ -124,6 +145,22 @@ def run(tier, seed):
             events, _ = conf.run(cfg, cfg, "sig", ["drv_sig.c"], cases, SPEC, wraps=WRAPS, nontrivial=nontrivial,
                                  min_per_shard=20, tlc_timeout=3000)
             _count(ev, cfg, events)
+    # 3. second conformance part: PoK/SoK, vBNN-IBS, ring signatures, CL, PS, homomorphic signatures
+    ev.cov["trusted_base"].append("GNU ld --wrap interposition of bn_rand_mod (captures the random scalars of g2_rand / cp_cmlhs_sig: "
+                                  "ghost logarithms, each VERIFIED by the spec against the logged group element)")
+    ev.assumptions += ["part 2: the group order n of every curve is prime and G1 = E(F_p) has cofactor 1 on the pairing curve (cofactor checked per case)",
+                       "part 2: hash-to-curve outputs of cp_smlers_ver / cp_mklhs_ver / cp_cmlhs_ver (inner BLS) are bound from the execution "
+                       "(each call's input must be the expected string); correctness of the map is C13",
+                       "part 2: the G_T elements hs[i][l] of a cp_cmlhs key are bound to the exponents x[i][l] returned by cp_cmlhs_gen "
+                       "(pairing and G_T exponentiation are C09/C12)",
+                       "part 2: messages that the scheme signs as elements of Z_n (CL, PS, homomorphic) are compared mod n; scalars that are "
+                       "signature components must lie in [0, n)",
+                       "part 2: an OR-proof / vBNN hash input whose point encodings are shorter than the buffer (identity points) is taken as zero padded"]
+    cases2 = gen_sig2.all_cases(rng, ids, tier)
+    rng.shuffle(cases2)
+    events, _ = conf.run("std256-part2", "std256", "sig2", ["drv_sig2.c"], cases2, SPEC2, wraps=WRAPS2, nontrivial=nontrivial2,
+                         min_per_shard=10, tlc_timeout=3000, driver_timeout=1800, heap="2g")
+    _count(ev, "std256-part2", events)
     return conf.finish()
 
 
